@@ -27,6 +27,7 @@ def exc_info(asm, e):
     if line is not None:
         info['file'] = getattr(line, 'file', None)
         info['number'] = getattr(line, 'number', None)
+        info['contents'] = str(getattr(line, 'contents', ''))[:200]
         info['msg'] = str(getattr(e, 'message', ''))[:300]
     return info
 
